@@ -369,3 +369,7 @@ package task
 // Suggestions for unknown names come from a model trained on every task name and alias.
 //@ func (*Executor).setupFuzzyModel
 //@   ensures e.Taskfile != nil ==> e.fuzzyModel != nil                                                                 [C15]
+
+// ---- C18: lock discipline of the shared tables (every function touching them is scanned) ----------------
+//@ guarded_by Executor.executionHashes Executor.executionHashesMutex                                               [C18]
+//@ guarded_by Compiler.dynamicCache Compiler.muDynamicCache                                                        [C18]
